@@ -105,6 +105,26 @@ Theorem C01_leads_from_continuation :
 Proof. exact: leads_are_future_states. Qed.
 Print Assumptions C01_leads_from_continuation.
 
+(* ... in particular for the solution of Theorem 2: the lead entries of `full` ARE the future states of the continuation *)
+Theorem C01_leads_of_solution :
+  forall (F : fieldType) (nb nf ne : nat) (A B : 'M[F]_(nb + nf, nf + nb)) (C : 'cV[F]_(nb + nf)) (D : 'M[F]_(nb + nf, ne))
+         (S T Q : 'M[F]_(nb + nf)) (Z : 'M[F]_(nf + nb, nb + nf)) (Ta u : 'M[F]_nb),
+  let p := @solve_transition (MCOps F) nb nf ne S T Q Z C D in
+  let sq := @square_from_triangular (MCOps F) nb nf ne (@detach (MCOps F) nb nf ne p Ta u) in
+  Q *m A *m Z = S -> Q *m B *m Z = T -> Q \in unitmx ->
+  dlsubmx S = 0 -> dlsubmx T = 0 ->
+  ulsubmx S \in unitmx -> drsubmx T \in unitmx -> drsubmx S + drsubmx T \in unitmx -> dlsubmx Z \in unitmx ->
+  u *m u^T = 1%:M -> ts_Tg p = u *m Ta *m u^T ->
+  forall (c : nat -> 'cV[F]_nb) (a : nat -> 'cV[F]_nf) (v : nat -> 'cV[F]_ne),
+  (forall m, c m.+1 = sq_T sq *m c m + sq_K sq + sq_P sq *m v m.+1 - sq_X sq *m a m.+1) ->
+  (forall m, a m = ts_Ru p *m v m.+1 + ts_J p *m a m.+1) ->
+  forall (idx : nat -> 'I_(nf + nb)) (n : nat) (j0 : 'I_nb),
+  idx 0%N = rshift nf j0 ->
+  (forall k, (k < n)%N -> exists r, dynid_row A B C D r (idx k) (idx k.+1)) ->
+  forall m, full C D S T Q Z (c m) (a m) (idx n) 0 = c (m + n)%N j0 0.
+Proof. exact: leads_of_full. Qed.
+Print Assumptions C01_leads_of_solution.
+
 (* 5. The dynamic identities built by _create_dynid_matrices from a token vector: one row per token not at its quantity's
       maximum shift, in vector order, pairing (q,k) at position i with (q,k+1) at position j; as linear forms
       dynid_A[r].x + dynid_B[r].y = x[i] - y[j]  (entries +1 / -1 regenerated from the source) *)
@@ -185,6 +205,17 @@ Theorem C01_measurement_block :
   Fm *m (ms_Z ms *m xi + ms_H ms *m w + ms_D ms) + Gm *m col_mx f xi + Hc + Jm *m w = 0.
 Proof. exact: measurement_block. Qed.
 Print Assumptions C01_measurement_block.
+
+Theorem C01_measurement_holds_along_path :
+  forall (F : fieldType) (nb nf ny nw : nat) (Fm : 'M[F]_ny) (Gm : 'M[F]_(ny, nf + nb)) (Hc : 'cV[F]_ny)
+         (Jm : 'M[F]_(ny, nw)) (Ua : 'M[F]_nb),
+  let ms := @solve_measurement (MCOps F) nb nf ny nw Fm Gm Hc Jm Ua in
+  Fm \in unitmx -> lsubmx Gm = 0 ->
+  forall (xis : seq 'cV[F]_nb) (ws : seq 'cV[F]_nw) (f : 'cV[F]_nf) (t : nat), (t < size xis)%N -> (t < size ws)%N ->
+  let y_t := nth 0 (@simulate_measurement (MCOps F) nb ny nw false (ms_Z ms) (ms_H ms) (ms_D ms) xis ws) t in
+  Fm *m y_t + Gm *m col_mx f (nth 0 xis t) + Hc + Jm *m nth 0 ws t = 0.
+Proof. exact: measurement_holds_along_path. Qed.
+Print Assumptions C01_measurement_holds_along_path.
 
 (* the guard `lsubmx Gm = 0` (no leads of transition variables in measurement equations) cannot be dropped: the code
    keeps only system.G[:, num_forwards:], and for  o = x{+1} + 1  the computed (Z, H, D) violates the equation *)
